@@ -106,7 +106,8 @@ def shard_api(sh):
     st = ShardStats('API states depth <= 2')
     for f in firsts:
         cases = []
-        hists = [[f]] + [[f, o] for o in ops]
+        pre = list(f) if isinstance(f, list) else [f]
+        hists = [pre] + [pre + [o] for o in ops]
         for h in hists:
             for fl in (0, CM):
                 if not fl and any(o[0] == 'setcomment' for o in h):
@@ -201,15 +202,15 @@ def main():
     positions = ['scalar', 'list', 'title', 'nested', 'annotation']
     singles = [bytes([b]) for b in range(1, 256)]
     engine.phase(ck, 'all 255 single bytes at 5 positions', shard_strings, [(positions, list(ch), dl) for ch in engine.chunks(singles, 8)], values=255)
-    L = 3
+    L = 3 if quick else 4
     strs = []
     for n in range(2, L + 1):
         strs += [b''.join(t) for t in itertools.product(META, repeat=n)]
     strs += [b'${HOME}', b'a${HOME}b', b'${X:-d}', b'$' + b'{', b'\\"', b'"\\', b'/*', b'*/', b'x*/y', b'a\n*/\nb', b'//', b'# c', b'', b' lead', b'trail ', b'\\n', b"it's", b'ti"tle']
     engine.phase(ck, 'all strings of length 2..%d over %d meta characters at 5 positions' % (L, len(META)), shard_strings,
-                 [(positions, list(ch), dl) for ch in engine.chunks(strs, 12)], values=len(strs))
+                 [(positions, list(ch), dl) for ch in engine.chunks(strs, 12 if quick else 200)], values=len(strs))
     engine.phase(ck, 'boundary numbers, negative zero, empty lists / strings / titles', shard_numbers, [dl])
-    N = 6 if quick else 7
+    N = 6 if quick else 8
     shards = []
     for sid in PRINTABLE:
         sch = FAM[sid]
@@ -220,7 +221,10 @@ def main():
     engine.phase(ck, 'states reached by accepted E1 texts N=%d' % N, shard_e1, shards, schemas=len(PRINTABLE))
     ops = [o for o in apibfs.ops_alphabet()]
     shards = [(s, [f], ops, dl) for s in apibfs.STARTS for f in ops]
-    engine.phase(ck, 'states reached by <= 2 API calls from 4 start states', shard_api, shards, operations=len(ops))
+    engine.phase(ck, 'states reached by <= 2 API calls from %d start states' % len(apibfs.STARTS), shard_api, shards, operations=len(ops))
+    if not quick:
+        shards = [(s, [[f, g] for g in ops], ops, dl) for s in apibfs.STARTS for f in ops]
+        engine.phase(ck, 'states reached by 3 API calls from %d start states' % len(apibfs.STARTS), shard_api, shards, operations=len(ops))
     ck.assumptions = ['strings contain no NUL byte (C strings)', 'floats are compared to the printed precision (%f)',
                       'the re-parsed configuration is compared on sections, titles, list lengths and values, not on annotations']
     ck.finish('state (parsed text / API history / byte string at a position) -> print, parse into a fresh context, compare, two more cycles; '
